@@ -30,4 +30,14 @@ KERNELS = [
       [("fx1", "Z"), ("fx2", "Z"), ("fx3", "Z")], "c06", ["C06"]),
     K("src_c06_cb3II_test2", "src/function/benchmark/chained_cb3II.cpp", r"else if \((fx2 [<>=]+ std::max\(fx1, fx3\))\)", [],
       [("fx1", "Z"), ("fx2", "Z"), ("fx3", "Z")], "c06", ["C06"]),
+    # ---- extension (C06_Convex2): maxhilb weights 1.0 / static_cast<scalar_t>(i + j + 1); the loop test of maxquad (first largest piece)
+    K("src_c06_maxhilb_den", "src/function/benchmark/maxhilb.cpp",
+      r"m_weights\(i, j\)\s*=\s*1\.0\s*/\s*static_cast<scalar_t>\((.*?)\);", [], [("i", "Z"), ("j", "Z")], "c06", ["C06"]),
+    K("src_c06_maxquad_test", "src/function/benchmark/maxquad.cpp", r"\bif \((kfx [<>=]+ fx)\)", [],
+      [("kfx", "Z"), ("fx", "Z")], "c06", ["C06"]),
+    # linear/function.cpp: the guards of the two regularisation terms (value and gradient use the same tests), read over Z
+    K("src_c06_linear_l1_guard", "src/linear/function.cpp", r"auto fx = accumulator\.m_vm1;\s*if \((m_l1reg > 0\.0)\)", [(r"0\.0", "0")],
+      [("m_l1reg", "Z")], "c06", ["C06"]),
+    K("src_c06_linear_l2_guard", "src/linear/function.cpp", r"W\.array\(\)\.abs\(\)\.mean\(\);\s*\}\s*if \((m_l2reg > 0\.0)\)", [(r"0\.0", "0")],
+      [("m_l2reg", "Z")], "c06", ["C06"]),
 ]
